@@ -280,7 +280,7 @@ func dropProofs(sec []dns.RR) []dns.RR {
 func (w *world) install(c caseT) (applied *int) {
 	count := 0
 	hooks := map[*authkit.Server][]func(*authkit.Exchange){}
-	for _, pos := range []string{"referral", "dnskey", "answer"} {
+	for _, pos := range []string{"rootref", "referral", "dnskey", "answer"} {
 		kind := c.Tamper[pos]
 		if kind == "" || kind == "none" || kind == "clonetag" {
 			continue
@@ -303,6 +303,56 @@ func (w *world) install(c caseT) (applied *int) {
 
 func (w *world) hookFor(pos, kind string, count *int) (*authkit.Server, func(*authkit.Exchange)) {
 	switch pos {
+	case "rootref":
+		// the ROOT's referral for test. (and its answer to a DS query for test.): the one delegation whose
+		// DS the trust anchors authenticate directly
+		return w.n.RootSrv, func(ex *authkit.Exchange) {
+			if ex.Zone == nil || ex.Zone.Name != "." {
+				return
+			}
+			isRef := ex.Truth.Kind == "referral" && ex.Truth.Cut == "test."
+			isDSQ := ex.Q.Qtype == dns.TypeDS && strings.EqualFold(ex.Q.Name, "test.")
+			if !isRef && !isDSQ {
+				return
+			}
+			*count++
+			dsPick := func(rr dns.RR) bool { return rr.Header().Rrtype == dns.TypeDS }
+			apply := func(sec []dns.RR) []dns.RR {
+				switch kind {
+				case "dropds":
+					var out []dns.RR
+					for _, rr := range sec {
+						if rr.Header().Rrtype == dns.TypeDS {
+							continue
+						}
+						if s, ok := rr.(*dns.RRSIG); ok && s.TypeCovered == dns.TypeDS {
+							continue
+						}
+						out = append(out, rr)
+					}
+					return out
+				case "swapds":
+					var out []dns.RR
+					for _, rr := range sec {
+						if rr.Header().Rrtype == dns.TypeDS {
+							other := authkit.NewKey("test.", 0)
+							ds := other.RR.ToDS(dns.SHA256)
+							ds.Hdr.Ttl = rr.Header().Ttl
+							out = append(out, ds, authkit.SignRRset([]dns.RR{ds}, ".", w.n.Root.Key0(), time.Now().Add(-time.Hour), time.Now().Add(24*time.Hour)))
+							continue
+						}
+						if s, ok := rr.(*dns.RRSIG); ok && s.TypeCovered == dns.TypeDS {
+							continue
+						}
+						out = append(out, rr)
+					}
+					return out
+				}
+				return w.tamperSection(sec, kind, w.n.Root, dsPick)
+			}
+			ex.Resp.Ns = apply(ex.Resp.Ns)
+			ex.Resp.Answer = apply(ex.Resp.Answer)
+		}
 	case "referral":
 		return w.tldSrv, func(ex *authkit.Exchange) {
 			if ex.Zone == nil || ex.Zone.Name != "test." {
@@ -423,6 +473,21 @@ func (w *world) hookFor(pos, kind string, count *int) (*authkit.Server, func(*au
 				if had {
 					ex.Resp.Ns = append(dropProofs(ex.Resp.Ns), w.foreignProof()...)
 				}
+			case "fakedname":
+				// the answer becomes a forged CNAME with a junk signature naming the real signer, "justified"
+				// by an unsigned DNAME that the signed zone's PARENT would own, in the authority section
+				tgt := strings.TrimSuffix(strings.ToLower(w.qname), "test.") + "evil.test."
+				forged := &dns.CNAME{Hdr: dns.RR_Header{Name: w.qname, Rrtype: dns.TypeCNAME, Class: dns.ClassINET, Ttl: 300}, Target: tgt}
+				junk := &dns.RRSIG{Hdr: dns.RR_Header{Name: w.qname, Rrtype: dns.TypeRRSIG, Class: dns.ClassINET, Ttl: 300},
+					TypeCovered: dns.TypeCNAME, Algorithm: dns.ECDSAP256SHA256, Labels: uint8(dns.CountLabel(w.qname)), OrigTtl: 300,
+					Expiration: uint32(time.Now().Add(24 * time.Hour).Unix()), Inception: uint32(time.Now().Add(-time.Hour).Unix()),
+					KeyTag: 4242, SignerName: zoneName, Signature: "Tm90QVJlYWxTaWduYXR1cmVCdXRWYWxpZEJhc2U2NA=="}
+				if k := w.zone.Key0(); k != nil {
+					junk.KeyTag = k.RR.KeyTag()
+				}
+				ex.Resp.Rcode = dns.RcodeSuccess
+				ex.Resp.Answer = []dns.RR{forged, junk}
+				ex.Resp.Ns = []dns.RR{&dns.DNAME{Hdr: dns.RR_Header{Name: "test.", Rrtype: dns.TypeDNAME, Class: dns.ClassINET, Ttl: 300}, Target: "evil.test."}}
 			case "roguesig":
 				// every RRset of the reply is altered and re-signed, signer name = the zone, with the attacker's key
 				resign := func(sec []dns.RR) []dns.RR {
@@ -473,6 +538,8 @@ func effectiveAt(c caseT, pos string) bool {
 	switch {
 	case kind == "" || kind == "none" || kind == "clonetag":
 		return false
+	case pos == "rootref":
+		return true // the parent (test.) is signed in every configuration
 	case pos == "referral" && (kind == "dropproof" || kind == "foreignproof"):
 		return !zoneSigned(c.Zone)
 	case pos == "referral" && (kind == "dropds" || kind == "swapds"):
@@ -490,10 +557,13 @@ func effectiveAt(c caseT, pos string) bool {
 }
 
 func effective(c caseT) bool {
-	return effectiveAt(c, "referral") || effectiveAt(c, "dnskey") || effectiveAt(c, "answer")
+	return effectiveAt(c, "rootref") || effectiveAt(c, "referral") || effectiveAt(c, "dnskey") || effectiveAt(c, "answer")
 }
 
 func tamperString(c caseT) string {
+	if rr := c.Tamper["rootref"]; rr != "" && rr != "none" {
+		return fmt.Sprintf("rootref=%s referral=%s dnskey=%s answer=%s", rr, c.Tamper["referral"], c.Tamper["dnskey"], c.Tamper["answer"])
+	}
 	return fmt.Sprintf("referral=%s dnskey=%s answer=%s", c.Tamper["referral"], c.Tamper["dnskey"], c.Tamper["answer"])
 }
 
